@@ -88,7 +88,11 @@ for _n, _p in [
     ('KeyError', ('LookupError',)), ('IndexError', ('LookupError',)),
     ('OSError', ('Exception',)), ('FileNotFoundError', ('OSError',)), ('TimeoutError', ('OSError',)),
     ('QueueFull', ('Exception',)), ('QueueEmpty', ('Exception',)), ('QueueShutDown', ('Exception',)),
-    ('InvalidStateError', ('Exception',)), ('ImportError', ('Exception',)),
+    ('InvalidStateError', ('Exception',)), ('ImportError', ('Exception',)), ('ModuleNotFoundError', ('ImportError',)),
+    ('InterruptedError', ('OSError',)), ('ConnectionError', ('OSError',)), ('PermissionError', ('OSError',)), ('FileExistsError', ('OSError',)),
+    ('NotImplementedError', ('RuntimeError',)), ('RecursionError', ('RuntimeError',)), ('ArithmeticError', ('Exception',)), ('ZeroDivisionError', ('ArithmeticError',)),
+    ('StopIteration', ('Exception',)), ('StopAsyncIteration', ('Exception',)), ('NameError', ('Exception',)), ('EOFError', ('Exception',)), ('MemoryError', ('Exception',)),
+    ('UnicodeError', ('ValueError',)), ('BufferError', ('Exception',)), ('SystemExit', ('BaseException',)), ('GeneratorExit', ('BaseException',)),
     ('BaseModel', ('object',)), ('BaseEvent', ('BaseModel',)), ('EventResult', ('BaseModel',)),
     ('EventBus', ('object',)), ('ReentrantLock', ('object',)), ('CleanShutdownQueue', ('object',)),
     ('AsyncEvent', ('object',)), ('Semaphore', ('object',)), ('Task', ('object',)), ('Future', ('object',)),
